@@ -1,1 +1,8 @@
 import RaftLogModel.Props.C08
+open RaftLog
+#print axioms c08_unlink_only_after_good_sync
+#print axioms c08_removal_starts_only_after_good_sync
+#print axioms c08_lastSyncFailed
+#print axioms c08_unlink_in_list_order
+#print axioms c08_postponed_in_request_order
+#print axioms c08_popObsolete_prefix
